@@ -22,6 +22,10 @@ pub enum Prefix {
     MidTraffic,
     /// one raw client stalled in the middle of the handshake (after `offset` bytes)
     PendingHandshake(u8),
+    /// like MidTraffic, and in addition one accepted peer has STOPPED READING while the
+    /// application kept sending: the kernel buffers of its connection and the library's own
+    /// write buffer are full (sending socket types only)
+    Backlogged,
 }
 
 #[derive(Debug, Clone, Serialize, Deserialize, PartialEq, Eq, Hash)]
@@ -115,7 +119,7 @@ pub fn close_outcome(c: &CloseCase) -> Outcome {
                         tokio::time::sleep(Duration::from_millis(5)).await;
                     }
                 }
-                Prefix::MidTraffic => {
+                Prefix::MidTraffic | Prefix::Backlogged => {
                     for _ in 0..2 {
                         match realnet::raw_connect(&endpoints[0]).await {
                             Ok(mut rc) => {
@@ -148,6 +152,18 @@ pub fn close_outcome(c: &CloseCase) -> Outcome {
                     if kind.can_send() && !matches!(kind, Kind::Rep | Kind::Router | Kind::Req) {
                         use zeromq::SocketSend;
                         let _ = s.send(crate::sim::to_msg(&[b"in-flight".to_vec()])).await;
+                    }
+                    if c.prefix == Prefix::Backlogged && matches!(kind, Kind::Pub | Kind::XPub | Kind::Push | Kind::Dealer) {
+                        // nobody reads from here on; keep sending until a send blocks (or, for
+                        // the publishers, which never block, until ~13 MB have been offered)
+                        use zeromq::SocketSend;
+                        let big = vec![0x5au8; 64 << 10];
+                        for i in 0..200 {
+                            let m = crate::sim::to_msg(&[format!("t0-bulk-{}", i).into_bytes(), big.clone()]);
+                            if tokio::time::timeout(Duration::from_millis(20), s.send(m)).await.is_err() {
+                                break;
+                            }
+                        }
                     }
                     if kind.fair_queue_recv() {
                         // the usual state of a receiving application: every connection has been
@@ -317,7 +333,10 @@ pub fn grid() -> Vec<CloseCase> {
     let mut v = vec![];
     for kind in ALL_KINDS {
         for transport in [Transport::TcpV4, Transport::TcpV6, Transport::Ipc] {
-            for prefix in [Prefix::BoundOnly, Prefix::Accepted(2), Prefix::ConnectedOut, Prefix::MidTraffic, Prefix::PendingHandshake(10)] {
+            for prefix in [Prefix::BoundOnly, Prefix::Accepted(2), Prefix::ConnectedOut, Prefix::MidTraffic, Prefix::PendingHandshake(10), Prefix::Backlogged] {
+                if prefix == Prefix::Backlogged && !matches!(kind, Kind::Pub | Kind::XPub | Kind::Push | Kind::Dealer) {
+                    continue;
+                }
                 for close in [true, false] {
                     v.push(CloseCase { kind, transport, prefix, close, binds: 1, sabotage: 0 });
                 }
@@ -344,7 +363,7 @@ pub fn run(ctx: &Ctx) -> (Report, PropertyMeta) {
     let ctx = &ctx1;
     let g = grid();
     let r = run_cases(ctx, "close", &g, close_outcome);
-    report.exhaustive_parts.push(format!("full grid: 9 socket types x {{TCP 127.0.0.1, TCP ::1, IPC}} x {{bound only, bound + 2 accepted peers, connected out, mid-traffic, one client stalled mid-handshake}} x {{close().await, drop}} = {} cells on the real runtime", g.len()));
+    report.exhaustive_parts.push(format!("full grid: 9 socket types x {{TCP 127.0.0.1, TCP ::1, IPC}} x {{bound only, bound + 2 accepted peers, connected out, mid-traffic, one client stalled mid-handshake, (PUB/XPUB/PUSH/DEALER) a peer that stopped reading with all buffers full}} x {{close().await, drop}} = {} cells on the real runtime", g.len()));
     report.merge(r);
     let n = t.pick(150, 3000);
     let r = run_random(
@@ -355,11 +374,12 @@ pub fn run(ctx: &Ctx) -> (Report, PropertyMeta) {
         |s| CloseCase {
             kind: s.pick(&ALL_KINDS),
             transport: s.pick(&[Transport::TcpV4, Transport::TcpV6, Transport::TcpLocalhost, Transport::Ipc]),
-            prefix: match s.below(5) {
+            prefix: match s.below(6) {
                 0 => Prefix::BoundOnly,
                 1 => Prefix::Accepted(s.range(1, 3) as u8),
                 2 => Prefix::ConnectedOut,
                 3 => Prefix::MidTraffic,
+                5 => Prefix::Backlogged,
                 _ => Prefix::PendingHandshake(s.pick(&[0u8, 1, 9, 10, 11, 63, 64, 65, 80, 200])),
             },
             close: s.bool(),
@@ -374,7 +394,7 @@ pub fn run(ctx: &Ctx) -> (Report, PropertyMeta) {
 
     let meta = PropertyMeta {
         level: "exploration",
-        rule: "real sockets on real TCP (127.0.0.1, ::1, localhost) and IPC transports on a current-thread tokio runtime, with raw clients speaking the reference codec. Exhaustive grid of socket type x transport x history prefix (bound only; bound with accepted peers; connected out to a raw listener; messages in flight both ways; one raw client stalled in the middle of its handshake) x {close().await, drop}; plus random inner parameters. Oracle: when close() returns (after a drop: within a watchdog limit) a fresh connect to every formerly bound endpoint is refused and IPC socket files are gone; close() reports no error in these fault-free histories; every established raw peer reads EOF or a reset; a connection that was mid-handshake is closed as well; the runtime's alive-task count returns to its value from before the socket existed. Non-trivial = the cell has at least one live connection or a pending handshake; distinct by cell".into(),
+        rule: "real sockets on real TCP (127.0.0.1, ::1, localhost) and IPC transports on a current-thread tokio runtime, with raw clients speaking the reference codec. Exhaustive grid of socket type x transport x history prefix (bound only; bound with accepted peers; connected out to a raw listener; messages in flight both ways; one raw client stalled in the middle of its handshake; for the sending types a peer that has stopped reading while the application kept sending until a send blocked / 13 MB were offered) x {close().await, drop}; plus random inner parameters. Oracle: when close() returns (after a drop: within a watchdog limit) a fresh connect to every formerly bound endpoint is refused and IPC socket files are gone; close() reports no error in these fault-free histories; every established raw peer reads EOF or a reset; a connection that was mid-handshake is closed as well; the runtime's alive-task count returns to its value from before the socket existed. Non-trivial = the cell has at least one live connection or a pending handshake; distinct by cell".into(),
         assumptions: vec![
             "wall-clock limits (10 s for peers/listeners, 2-3 s for tasks) are watchdogs ~10^3-10^4 x the typical latency; the runtime is single-threaded and otherwise idle".into(),
             "failures injected into close itself are not generated: 'reported each failure it met' is asserted only as 'no spurious errors'".into(),
